@@ -193,7 +193,14 @@ def check_soundness(
             line = prog.ins[e[0]].line
             b = by_line.get(line)
             if b is None:
-                raise HarnessError(f"accepting execution enters line {line} which is no block of the function")
+                if function is None:
+                    raise HarnessError(f"accepting execution enters line {line} which is no block of the function")
+                if ("missing", line) not in seen:
+                    seen.add(("missing", line))  # type: ignore[arg-type]
+                    findings.append(Finding(prop, "missing-block", src,
+                                            f"an approved execution that starts with the dispatch path enters the block at line {line}, which the function does not contain",
+                                            None, _lines(prog, res.trace), line, "blocks", None, True))
+                continue
             blocks.append((line, b))
         negs = []
         items = []
@@ -247,8 +254,16 @@ def check_soundness(
         st.skipped = f"unsupported opcode {e}"
         return [], st
     st.absorb(dom)
-    if ex.runtime_cmp_governed:
-        st.extra_runtime_cmp = True  # type: ignore[attr-defined]
+    if gtxn:
+        # "this transaction when it sits at index i" is empty when i is impossible (not a listed index)
+        for b in fn.blocks:
+            ctx = rview.ctx(b)
+            for i in range(MAX_GROUP):
+                if i not in ctx.group_indices and not cl.is_empty_tail(ctx.gtxn_context(i)):
+                    findings.append(Finding(prop, "gtxn_context:not-empty", src,
+                                            f"block at line {b.entry_instr.line}: index {i} is not a possible group index but gtxn_context({i}) is not empty",
+                                            None, None, b.entry_instr.line, f"gtxn_context({i})", cl.describe_ctx(ctx.gtxn_context(i)), True))
+                    break
     return findings, st
 
 
@@ -271,7 +286,7 @@ def multi_site_subs(prog: ts.Prog) -> Set[int]:
 
 
 def _free_admitted(prog: ts.Prog, key: str, var_of: Callable[[sx.Z3Dom], Any], universe: Sequence[int], retsub_any: bool,
-                   unroll: int, st: ProgStats) -> Tuple[Dict[int, Set[int]], Dict[int, bool], bool]:
+                   unroll: int, st: ProgStats, prefix: Optional[List[int]] = None, early_ok: bool = False) -> Tuple[Dict[int, Set[int]], Dict[int, bool], bool]:
     """-> (admitted values per block-leader pc over accepting FREE paths, pc -> inside multi-site sub, cut seen)"""
     admitted: Dict[int, Set[int]] = {}
     inside: Dict[int, bool] = {}
@@ -297,39 +312,45 @@ def _free_admitted(prog: ts.Prog, key: str, var_of: Callable[[sx.Z3Dom], Any], u
             if res.cut != "loop":
                 cut[0] = True  # depth / fuel / budget: the set of accepting paths may be incomplete
 
-    _ex, dom = sx.explore(prog, "FREE", [key], unroll, max_depth=FREE_DEPTH, retsub_any=retsub_any, on_accept=on_accept, on_any=on_any)
+    _ex, dom = sx.explore(prog, "FREE", [key], unroll, max_depth=FREE_DEPTH, retsub_any=retsub_any, on_accept=on_accept, on_any=on_any, prefix=prefix, prefix_early_exit_ok=early_ok)
     st.absorb(dom)
     return admitted, inside, cut[0]
 
 
-def check_exact_int(src: str, prop: str = "C06", unroll: int = 2, run: Optional[Run] = None) -> Tuple[List[Finding], ProgStats]:
+def check_exact_int(src: str, prop: str = "C06", unroll: int = 2, run: Optional[Run] = None,
+                    function: Any = None, prefix_lines: Optional[List[int]] = None, early_ok: bool = False) -> Tuple[List[Finding], ProgStats]:
     """Direct-check reading: listed value <=> admitted by some accepting FREE path through the block."""
     st = ProgStats()
     prog = ts.tokenize(src)
     t0 = time.time()
-    if run is None:
+    if run is None and function is None:
         run = Run(src, detectors=[])
     st.tealer_s = time.time() - t0
+    fn = function if function is not None else run.function
+    prefix = None
+    if prefix_lines is not None:
+        l2p = {ins.line: ins.idx for ins in prog.ins}
+        prefix = [l2p[l] for l in prefix_lines]
     findings: List[Finding] = []
     incomplete = False
     try:
         res: Dict[str, Any] = {}
         for key, var_of, uni in (("GroupSize", lambda d: d.gs, range(1, 17)), ("GroupIndex", lambda d: d.gi, range(0, 16))):
-            exact, inside, inc1 = _free_admitted(prog, key, var_of, list(uni), False, unroll, st)
-            upper, inside2, inc2 = _free_admitted(prog, key, var_of, list(uni), True, unroll, st) if multi_site_subs(prog) else (exact, inside, False)
+            exact, inside, inc1 = _free_admitted(prog, key, var_of, list(uni), False, unroll, st, prefix, early_ok)
+            upper, inside2, inc2 = _free_admitted(prog, key, var_of, list(uni), True, unroll, st, prefix, early_ok) if multi_site_subs(prog) else (exact, inside, False)
             res[key] = (exact, upper, {**inside, **inside2})
             incomplete = incomplete or inc1 or inc2
     except ts.Unsupported as e:
         st.skipped = f"unsupported opcode {e}"
         return [], st
     st.nontrivial = True
-    for b in run.function.blocks:
+    for b in fn.blocks:
         line = b.entry_instr.line
         pcs = [i.idx for i in prog.ins if i.line == line]
         if not pcs:
             continue  # synthetic block
         pc = pcs[0]
-        ctx = run.ctx(b)
+        ctx = fn.transaction_context(b)
         listed_gs, listed_gi = set(ctx.group_sizes), set(ctx.group_indices)
         ex_gs, up_gs, ins_gs = res["GroupSize"][0].get(pc, set()), res["GroupSize"][1].get(pc, set()), res["GroupSize"][2].get(pc, False)
         ex_gi, up_gi, ins_gi = res["GroupIndex"][0].get(pc, set()), res["GroupIndex"][1].get(pc, set()), res["GroupIndex"][2].get(pc, False)
